@@ -277,6 +277,20 @@ theorem commit2_shape {w : WState} {qi ei abi lbi : Nat} {lq le : AcctV} {ab lb 
 theorem step_shape (w : WState) (op : WOp) (hw : WShape w) : WShape (w.step op) := by
   cases op with
   | tick dt => exact hw
+  | accrue bi =>
+    simp only [WState.step]
+    split
+    · split
+      · exact hw
+      · exact hw
+    · exact hw
+  | collect bi ok vault =>
+    simp only [WState.step]
+    split
+    · split
+      · exact hw
+      · exact hw
+    · exact hw
   | deposit ai bi signer amount upTo =>
     simp only [WState.step]
     split
